@@ -116,6 +116,23 @@ def pspmv (side : Side) (P : Vec K → Vec K) (A : CRS K) (F X T : Vec K) : Vec 
 
 end ops
 
+/-- `for(; iter < maxiter && cond; ++iter) body` as structural recursion on `fuel = maxiter - iter`
+(the fuel *is* the guard `iter < maxiter`; `body` includes the `++iter`). -/
+def loopN {σ : Type} (cond : σ → Bool) (body : σ → σ) : Nat → σ → σ
+  | 0, s => s
+  | fuel + 1, s => if cond s then loopN cond body fuel (body s) else s
+
+/-- the same loop with a body that may throw: `.error (e, s)` = exception `e` raised in program state `s`.
+Result: `(none, s)` normal loop exit in state `s`, `(some e, s)` exception. -/
+def loopE {σ ε : Type} (cond : σ → Bool) (body : σ → Except (ε × σ) σ) : Nat → σ → Option ε × σ
+  | 0, s => (none, s)
+  | fuel + 1, s =>
+    if cond s then
+      match body s with
+      | .error (e, s') => (some e, s')
+      | .ok s' => loopE cond body fuel s'
+    else (none, s)
+
 /-- **History semantics of a solver object** (C15): the object is its work-vector state `W`; a call `c`
 maps the state to an observable result and the next state.  `history step w cs` runs the calls `cs` one after
 the other on ONE object, threading the work vectors (also through calls that end in an exception). -/
